@@ -58,6 +58,8 @@ rca, outa = sh("go test -count=1 ./sql/... ./schemahcl/... 2>&1 | grep -v '^ok\\
 if rca != 0:  # sql/sqltool's formatter test is wall-clock dependent (second boundary): retry once
     rca, outa = sh("go test -count=1 ./sql/... ./schemahcl/... 2>&1 | grep -v '^ok\\|no test files' | head -20; exit ${PIPESTATUS[0]}", cwd=wt)
 rcb, outb = sh(f"{GO_CLI} test -count=1 ./internal/... 2>&1 | grep -v '^ok\\|no test files' | head -20; exit ${{PIPESTATUS[0]}}", cwd=wt + "/cmd/atlas")
+if rcb != 0:  # cmdapi's TestMigrate_Diff depends on the wall clock (file version by second): retry once
+    rcb, outb = sh(f"{GO_CLI} test -count=1 ./internal/... 2>&1 | grep -v '^ok\\|no test files' | head -20; exit ${{PIPESTATUS[0]}}", cwd=wt + "/cmd/atlas")
 res["existing_tests_root_rc"], res["existing_tests_cli_rc"] = rca, rcb
 res["existing_tests_output"] = (outa + outb)[-800:]
 res["existing_tests_wall_s"] = round(time.time() - t)
